@@ -69,7 +69,9 @@ FIX_COMMITS = ['6dbd058 fix: with_prec rounds negative values symmetrically (C07
                'beb88f2 fix: equality no longer overflows when adding the carry (C02)',
                '49ca308 fix: inverse_with_context exchanges Floor and Ceiling for negative values (C12)',
                '343238e fix: parser rejects a sign character after the decimal point (C05)',
-               '45ab761 fix: 1 / 0 panics for a primitive one over a zero decimal (C08)']
+               '45ab761 fix: 1 / 0 panics for a primitive one over a zero decimal (C08)',
+               '6dcf90d fix: cube root rounds an inexact integer root as inexact (C11)',
+               'c9bca48 fix: square root of long inputs: even shifted scale, exact result scale, sticky digit (C10)']
 NOTES = ('Contract-based deductive verification (Verus) of functions re-extracted from /repo on every run; '
          'see DESIGN.md.  exit 2 = undecided because of the machinery (never a violation).')
 
@@ -152,36 +154,39 @@ prop('C09', units=['rem', 'scale', 'core', 'pow10'], level='proof',
      technique=_TECH)
 
 _X42 = '1.000000000000000000000000000000000000000001'
-prop('C10', units=['roots', 'core', 'context', 'config'], level='proof',
+prop('C10', units=['roots', 'cbrt', 'prec', 'core', 'context', 'config', 'digits', 'pow10'], level='proof',
      hooks=[_h.replay_hook([
          dict(args=['sqrt', '4' + '0' * 210]), dict(args=['sqrt_ctx', _X42, '5', 'Up']), dict(args=['sqrt_ctx', _X42, '20', 'Up']),
          dict(args=['sqrt_ctx', '2', '10', 'Down']), dict(args=['sqrt_ctx', '2', '7', 'Up']), dict(args=['sqrt_ctx', '152.2756', '4', 'HalfEven']),
          dict(args=['sqrt', '1e-30']), dict(args=['sqrt_ctx', '99999999', '3', 'Floor']),
-         # long even-length coefficients (more than 2(p+5) digits) just above a representable root
-         dict(args=['sqrt_ctx', '3036.01001102000001', '3', 'Up']), dict(args=['sqrt_ctx', '3052.56001105000001', '3', 'HalfDown'])])],
-     level_text=('PARTIAL. Verus proves the entry points only: sqrt() is sqrt_with_context at the configured default context (symbolic), zero and one are returned '
-                 'unchanged, a negative input gives None, the reference forms give None / zero / the root of the magnitude, the absolute-value form takes the root of |x| and '
-                 'the copy-sign form returns exactly that root with the sign of x. The numeric core impl_sqrt is NOT under contract (its result is an uninterpreted function), so '
-                 'correct rounding of the root is not decided; three genuine accuracy defects are replayed with an integer oracle and listed as known findings'),
-     level_note=_NOTE_COMMON + ' A change inside impl_sqrt is not seen by this check except through the replayed inputs.',
-     technique=_TECH + '; known findings replayed on the real crate with integer oracles')
+         dict(args=['sqrt_ctx', '3036.01001102000001', '3', 'Up']), dict(args=['sqrt_ctx', '3052.56001105000001', '3', 'HalfDown']),
+         dict(args=['sqrt_ctx', '12345678901234567', '3', 'Down'])])],
+     level_text=('Verus proves on the real body of impl_sqrt (after the fix: commit c9bca48) that for x = n * 10^-s > 0 the result is THE REAL SQUARE ROOT ROUNDED to p significant '
+                 'digits under the mode, stated over integers: with N = n * 10^e (e = appended zeros: enough for 2(p+5) digits, plus one if the scale would be odd), R = floor(sqrt(N)) '
+                 '(num-bigint sqrt, assumed), t = digits(R) - p and q = floor(R / 10^t): the result is q if N == (q*10^t)^2, otherwise q or q+1 as the mode table decides from the comparison of '
+                 '4N with ((2q+1)*10^t)^2 -- i.e. the true root against the midpoint -- and the parity of q, at scale (s+e)/2 - t. So it is exact when the root is representable, never below '
+                 'the root for Up/Ceiling, never above for Down/Floor, and ties are decided on the true value (lemma_sqrt_sticky: a floor root with a sticky digit rounds like the real root; '
+                 'with_precision_round is proved in C07). Entry points: sqrt() is sqrt_with_context at the configured default context, zero and one are returned unchanged, a negative input gives '
+                 'None, the reference forms give None / zero / the root of the magnitude, the absolute-value form takes the root of |x| and the copy-sign form returns that root with the sign of x. '
+                 'Three genuine defects found earlier by replay are fixed by that commit; their inputs stay as replayed regression inputs'),
+     level_note=_NOTE_COMMON + ' Preconditions: |s| <= 2^61 and p <= 2^59 (so that 2(p+5) and the result scale fit their machine types). BigUint::sqrt is an assumed contract (floor square root).',
+     technique=_TECH + '; integer characterisation of the rounded real root; former findings replayed with integer oracles')
 
 prop('C11', units=['roots', 'cbrt', 'core', 'context', 'config', 'digits', 'pow10', 'insig', 'round'], level='proof',
      hooks=[_h.replay_hook([
-         dict(args=['cbrt_ctx', _X42, '5', 'Up']),
+         dict(args=['cbrt_ctx', _X42, '5', 'Up']), dict(args=['cbrt_ctx', '607', '4', 'Ceiling']),
          dict(args=['cbrt_ctx', '-27', '5', 'Floor']), dict(args=['cbrt_ctx', '2', '12', 'Down']), dict(args=['cbrt_ctx', '-2', '12', 'Ceiling']),
          dict(args=['cbrt_ctx', '1e-7', '6', 'HalfUp']), dict(args=['cbrt_ctx', '123456.789', '9', 'Up']),
-         # at least 3(p+4) digits with a positive scale that is not a multiple of three
          dict(args=['cbrt_ctx', '123456789012345678901234567890.1', '5', 'Down'])])],
-     level_text=('PARTIAL, but the numeric core is now under contract. Verus proves on the real bodies of impl_cbrt_int_scale / impl_cbrt_uint_scale (and of WithScale, its From impl, '
-                 'multiply_by_ten_to_the_uint) that for a non-zero x = i * 10^-s the result is  sign(i) * round_mag(R, digits(R) - p)  at scale (s + e)/3 - (digits(R) - p),  where '
-                 'e is the number of appended zeros (enough for 3(p+4) digits, then up to the next exponent making s + e a multiple of three -- proved against truncated i64 division), '
-                 'R = floor(cbrt(|i| * 10^e)) (num-bigint nth_root, assumed), R has more than p digits (so the result has exactly p digits or p+1 after a carry), and round_mag is the mode table applied to '
-                 'ALL dropped digits of R with the sign of x; the three debug assertions of the function are proved; no overflow for |s| <= 2^61, p <= 2^60. Entry points: cbrt() is '
-                 'cbrt_with_context at the configured default context, zero and one are returned unchanged. NOT decided, and a GENUINE DEFECT (known finding, replayed): the remainder '
-                 '|i|*10^e - R^3 is never looked at, so a root that is inexact but whose dropped digits are all zero is rounded as if exact (cbrt(1+1e-42) at p=5, Up gives 1.0000)'),
-     level_note=_NOTE_COMMON + ' The contract states the rounding of the FLOOR cube root, which is what the code computes; it differs from the property (rounding of the real cube root) exactly in the sticky-remainder case recorded as the known finding. Cow<BigUint> + to_mut() is rewritten to an owned copy (R6).',
-     technique=_TECH + '; known finding replayed on the real crate with an integer oracle')
+     level_text=('Verus proves on the real bodies of impl_cbrt_int_scale / impl_cbrt_uint_scale (after the fix: commit 6dcf90d; also WithScale, its From impl, multiply_by_ten_to_the_uint) '
+                 'that for a non-zero x = i * 10^-s the result is sign(i) * THE REAL CUBE ROOT of |x| ROUNDED to p significant digits under the mode with the sign of x '
+                 '(so Floor / Ceiling act on the signed value), stated over integers: with N = |i| * 10^e (e = appended zeros: enough for 3(p+4) digits, then up to the next exponent making '
+                 's + e a multiple of three -- proved against truncated i64 division), R = floor(cbrt(N)) (num-bigint nth_root, assumed), t = digits(R) - p, q = floor(R / 10^t): the result magnitude is '
+                 'q if N == (q*10^t)^3, otherwise q or q+1 as the mode table decides from the comparison of 8N with ((2q+1)*10^t)^3 and the parity of q, at scale (s+e)/3 - t. The three debug '
+                 'assertions of the function are proved; no overflow for |s| <= 2^61, p <= 2^60. Entry points: cbrt() is cbrt_with_context at the configured default context, zero and one are '
+                 'returned unchanged. The genuine defect found earlier by replay (remainder of the root extraction ignored) is fixed by that commit; its input stays as a replayed regression input'),
+     level_note=_NOTE_COMMON + ' BigUint::nth_root(3) is an assumed contract (floor cube root). Cow<BigUint> + to_mut() is rewritten to an owned copy (R6).',
+     technique=_TECH + '; integer characterisation of the rounded real root; former finding replayed with an integer oracle')
 
 prop('C12', units=['inverse', 'prim_div', 'core', 'context', 'config'], level='proof',
      hooks=[_h.replay_hook([
